@@ -306,6 +306,13 @@ func c16KindsCorpus(c *core.Ctx, specs []c16FileSpec) {
 			cs := &c16PagesCase{Part: "pages", File: spec, Async: (k+col)%4 == 0, RG: rg, Col: col, Hold: 1 + (k+col)%3, MaxPages: c.N(2, 8),
 				ChurnSeed: int64(13000 + k*100 + col)}
 			c16RunPages(c, cs, "held/kinds-pages")
+			if (col/2+k)%c.N(2, 1) != 0 {
+				continue
+			}
+			// the same chunk through the value-level reader (quick tier: every other one)
+			vs := *cs
+			vs.Batch, vs.Recycle, vs.MaxPages = c16ValueBatches[1+(k+col)%5], (k+col)%2 == 0, c.N(4, 8)
+			c16RunPages(c, &vs, "held/kinds-chunk-values")
 		}
 	}
 	c.Note("kinds files: %d columns (type_encoding) %v; %d files, %d data pages: %d without a value, %d with exactly one, %d with exactly two",
